@@ -153,6 +153,9 @@ type docEntry struct {
 	maxK func(thorough bool) int
 	// pairAll: the table is small; combine every deviation in every tier
 	pairAll bool
+	// tripleQuick: 3-combinations over the deviations marked Triple already in
+	// the quick tier (thorough: over all deviations when pairAll)
+	tripleQuick bool
 	// widePairs: in the thorough tier combine pairwise only the deviations
 	// marked Wide (the full table squared would not fit the time budget)
 	widePairs bool
@@ -472,6 +475,9 @@ func (d *docEntry) Explore(e *env) {
 	if d.maxK != nil {
 		k = d.maxK(c.Thorough())
 	}
+	if d.tripleQuick {
+		k = 3
+	}
 	c.Bound(d.name+"_deviations", fmt.Sprint(len(d.devs)))
 	c.Bound(d.name+"_max_combined", fmt.Sprint(k))
 
@@ -567,7 +573,7 @@ func (d *docEntry) Explore(e *env) {
 	if k >= 3 {
 		var core []int
 		for i := range d.devs {
-			if (d.devs[i].Triple || d.pairAll) && !isTrunc(&d.devs[i]) {
+			if (d.devs[i].Triple || (d.pairAll && c.Thorough())) && !isTrunc(&d.devs[i]) {
 				core = append(core, i)
 			}
 		}
